@@ -100,7 +100,7 @@ void enumerate_crash_states(std::map<std::string, std::string> files,
         case FS_CLOSE:
             break;
         case FS_RENAME:
-            if (ev.err == 0 && files.count(ev.path))
+            if (ev.err == 0 && files.count(ev.path) && ev.path != ev.path2)
             {
                 files[ev.path2] = files[ev.path];
                 files.erase(ev.path);
@@ -441,8 +441,11 @@ extern "C" int rename(char const* from, char const* to)
         return -1;
     }
 
-    m.files[to] = it->second;
-    m.files.erase(from);
+    if (std::strcmp(from, to) != 0)
+    {
+        m.files[to] = it->second;
+        m.files.erase(from);
+    }
     if (m.tracing) m.trace.push_back(e);
     return 0;
 }
